@@ -208,7 +208,7 @@ def crash_signature(out):
     return kind.strip()[:160] + (" @ " + " < ".join(frames[:3]) if frames else "")
 
 
-def ddmin_lines(binary, casefile, wd, known="", want=("crash", "fail", "hang"), budget=200, timeout=120, extra_env=None):
+def ddmin_lines(binary, casefile, wd, known="", want=("crash", "fail", "hang"), budget=60, timeout=120, extra_env=None):
     """Generic line-based delta debugging for cases the library could not shrink (sanitizer aborts)."""
     lines = [l for l in open(casefile).read().split("\n") if l.strip()]
     tmp = os.path.join(wd, "ddmin.case")
@@ -294,6 +294,7 @@ def run_rc(prop, binary, wd, out, per_shard, max_size, shards=NCPU, known_ids=()
 
     with ThreadPoolExecutor(max_workers=NCPU) as ex:
         results = list(ex.map(one, range(shards)))
+    triaged = 0
     for i, rc, dt in results:
         sp = os.path.join(wd, "s%d.json" % i)
         st = {}
@@ -320,6 +321,12 @@ def run_rc(prop, binary, wd, out, per_shard, max_size, shards=NCPU, known_ids=()
             continue
         name = "violation_seed%d_shard%d.case" % (seed(), i)
         dst = save_replay(prop, cand, name)
+        triaged += 1
+        if triaged > 3:
+            # more failing shards than we triage in depth: keep the case, report it, skip the replays/minimisation
+            out.violations.append((dst, "%s in shard %d (not triaged further: %d earlier shards already failed): %s"
+                                   % (kind, i, triaged - 1, (st.get("fail_reason") or crash_signature(logtxt))[:300])))
+            continue
         # replay 3x in isolation
         sts = []
         txt = ""
